@@ -285,7 +285,8 @@ def plan(tier: str) -> list[tuple]:
             for first in kinds(constrained):
                 if n >= 3 and (cfg == "mem" or tier == "thorough"):
                     for second in kinds(constrained):
-                        tasks.append(("single", cfg, n, constrained, (first, second), cfg == "mem" or tier == "thorough"))
+                        tasks.append(("single", cfg, n, constrained, (first, second),
+                                      (cfg == "mem" and not constrained) or tier == "thorough"))
                 else:
                     tasks.append(("single", cfg, n, constrained, first, cfg == "mem" or tier == "thorough"))
     # multi-objective
